@@ -465,6 +465,40 @@ def norm_cond(c, labs, depth=0):
     return [(c, labs)]
 
 
+def dnf_cond(c, labs, depth=0):
+    """like norm_cond, but a selection with several branches that can satisfy `labs` is split: the result is a disjunction
+    (list) of conjunctions; [] = never true, [[]] = always true"""
+    if depth > 8:
+        return [[(c, labs)]]
+    if isinstance(c, tuple) and c and c[0] == "gamma":
+        inner, wrap = c, (lambda v: v)
+    elif isinstance(c, tuple) and c and c[0] == "discr" and isinstance(c[1], tuple) and c[1] and c[1][0] == "gamma":
+        inner, wrap = c[1], (lambda v: ("discr", v) + c[2:])
+    elif isinstance(c, tuple) and c and c[0] == "unop" and c[1] == "Not" and isinstance(c[2], tuple) and c[2] and c[2][0] == "gamma":
+        return dnf_cond(c[2], flow._flip(labs), depth + 1)
+    else:
+        d = flow._decide_label(c, labs)
+        if d is True:
+            return [[]]
+        if d is False:
+            return []
+        return [[(c, labs)]]
+    per = []
+    for l, v in inner[2]:
+        rs = dnf_cond(flow.simplify_term(wrap(v)), labs, depth + 1)
+        if rs:
+            per.append((l, rs))
+    if len(per) == len(inner[2]) and all(rs == [[]] for l, rs in per):
+        return [[]]
+    out = []
+    for l, rs in per:
+        for h in dnf_cond(inner[1], l, depth + 1):
+            for r in rs:
+                if not contradictory(h + r):
+                    out.append(h + r)
+    return out
+
+
 def conditions(N, program, body, target, terms=None, start=0, inline=False):
     """flow.conditions in normal form: necessary (test term, label) pairs for reaching `target`; None if unreachable"""
     out = []
@@ -549,42 +583,47 @@ def rows(S, body, N=None, expand=True, deep=False):
     out = []
     for o in (S.outcomes(body) if expand else S.local_outcomes(body)):
         v = N.norm(o.value)
-        base = []
-        dead = False
+        alts = [[]]
         for t, l, f, w in o.conds:
-            r = norm_cond(N.norm(t), l)
-            if r is None:
-                dead = True
+            tn = N.norm(t)
+            if deep:
+                ds = dnf_cond(tn, l)
+                if len(ds) * len(alts) > 64:
+                    r = norm_cond(tn, l)
+                    ds = [] if r is None else [r]
+            else:
+                r = norm_cond(tn, l)
+                ds = [] if r is None else [r]
+            alts = [a + [(t2, l2, f, w) for t2, l2 in d] for a in alts for d in ds]
+            if not alts:
                 break
-            base += [(t2, l2, f, w) for t2, l2 in r]
-        if dead:
-            continue
-        for cs, v2 in (cases_deep(v) if deep else cases(v)):
-            extra = []
-            dead = False
-            for t, l in cs:
-                r = norm_cond(t, l)
-                if r is None:
-                    dead = True
-                    break
-                extra += [(t2, l2, o.fn, "%s:%d" % (o.site[0].file, o.site[2])) for t2, l2 in r]
-            if dead:
-                continue
-            allc = _with_context(base + extra)
-            if allc is None or contradictory([(t, l) for t, l, f, w in allc]):
-                continue
-            seen_c, ded = set(), []
-            for t, l, f, w in allc:
-                t, l = canon_cond(t, l)
-                if (t, l) not in seen_c:
-                    seen_c.add((t, l))
-                    ded.append((t, l, f, w))
-            allc = ded
-            for t, l, f, w in allc:
-                v2 = flow._resolve_nested(v2, t, l)
-            v2 = flow.simplify_term(v2)
-            vp, _ = summary.variant_path(v2)
-            out.append(summary.Outcome(vp, v2, allc, o.site, o.fn))
+        for base in alts:
+          for cs, v2 in (cases_deep(v) if deep else cases(v)):
+              extra = []
+              dead = False
+              for t, l in cs:
+                  r = norm_cond(t, l)
+                  if r is None:
+                      dead = True
+                      break
+                  extra += [(t2, l2, o.fn, "%s:%d" % (o.site[0].file, o.site[2])) for t2, l2 in r]
+              if dead:
+                  continue
+              allc = _with_context(base + extra)
+              if allc is None or contradictory([(t, l) for t, l, f, w in allc]):
+                  continue
+              seen_c, ded = set(), []
+              for t, l, f, w in allc:
+                  t, l = canon_cond(t, l)
+                  if (t, l) not in seen_c:
+                      seen_c.add((t, l))
+                      ded.append((t, l, f, w))
+              allc = ded
+              for t, l, f, w in allc:
+                  v2 = flow._resolve_nested(v2, t, l)
+              v2 = flow.simplify_term(v2)
+              vp, _ = summary.variant_path(v2)
+              out.append(summary.Outcome(vp, v2, allc, o.site, o.fn))
     return out
 
 
